@@ -161,6 +161,23 @@ pub fn run(ctx: &Ctx) -> i32 {
         st.count("large_sparse_inputs");
         check_case(ctx, st, &tcs, Settings::new(0));
     });
+    // medium-sized inputs: many / long test cases, many distinct symbols, long repeats, deep prefix chains
+    {
+        let n = if ctx.thorough { 4000 } else { 250 };
+        let names = ["ab", "abc", "mixed", "meta", "clusters"];
+        let als: Vec<Vec<String>> = names.iter().map(|a| gen::alphabet(a)).collect();
+        par_for(&ctx.run, n, |i, st| {
+            let mut rng = Rng::new(seed, 0x162_0000 + i as u64);
+            let tcs = gen::medium_family(&mut rng, &als[i % als.len()]);
+            let tcs: Vec<String> = tcs.into_iter().filter(|t| !t.is_empty()).collect();
+            if tcs.is_empty() {
+                return;
+            }
+            st.count("medium_sized_inputs");
+            let s = match i % 3 { 0 => Settings::new(0), 1 => Settings::new(REP), _ => Settings::new(NOSTART | NOEND) };
+            check_case(ctx, st, &tcs, s);
+        });
+    }
     let n = if ctx.thorough { 200_000 } else { 8_000 };
     let alphabets: Vec<(String, Vec<String>)> = gen::ALPHABETS.iter().map(|a| (a.to_string(), gen::alphabet(a))).collect();
     par_for(&ctx.run, n, |i, st| {
